@@ -7,6 +7,7 @@ pub mod c02;
 pub mod c02_tuples;
 pub mod c04;
 pub mod c09;
+pub mod c11;
 
 pub fn run(id: &str, rep: &mut Report) -> bool {
     match id {
@@ -14,6 +15,7 @@ pub fn run(id: &str, rep: &mut Report) -> bool {
         "C02" => c02::run(rep),
         "C04" => c04::run(rep),
         "C09" => c09::run(rep),
+        "C11" => c11::run(rep),
         _ => return false,
     }
     true
@@ -26,6 +28,7 @@ pub fn replay(id: &str, case: &Value) -> Result<Vec<(String, String)>, String> {
         "C02" => c02::replay(case),
         "C04" => c04::replay(case),
         "C09" => c09::replay(case),
+        "C11" => c11::replay(case),
         _ => Err(format!("no replay for {}", id)),
     }
 }
